@@ -80,7 +80,8 @@ def store_guards(an, sy, bb):
         for a in sy.atoms(d, rel, vals):
             from ..sym import atom_str
             s = atom_str(a)
-            if "is_some(var[" in s or "is_none(var[" in s:
+            import re as _re
+            if _re.search(r"var<\[.*\]>\[", s):
                 out.append(s)
     return out
 
